@@ -183,11 +183,15 @@ def handle (j : Json) : Except String Verdict := do
       let blamed := match firstBad.bind (fun i => rows[i]?) with
         | some row => blameRow ext fields row
         | none => []
+      -- an error of `build_builder` (the schema is refused before any value is serialized) is outside C18, which speaks
+      -- about errors raised while serializing a value
+      let schemaRefused := !(newRoot fields).isOk
       let c18 :=
-        if ia.lookup "field" == none || ia.lookup "data_type" == none then "fail"
+        if schemaRefused then "na"
+        else if ia.lookup "field" == none || ia.lookup "data_type" == none then "fail"
         else if anyMalformed || blamed.isEmpty then "na"
         else if blamed.contains ((ia.lookup "field").getD "") then "pass" else "fail"
-      return { agree := annEq, spec := [("C16", c16), ("C05", "pass"), ("C01", "na"), ("C03", "na"), ("C18", c18)], tags := "err" :: tags,
+      return { agree := annEq, spec := [("C16", c16), ("C05", "pass"), ("C01", "na"), ("C03", "na"), ("C18", c18)], tags := "err" :: (if schemaRefused then "schema-refused" :: tags else tags),
                sig := if !annEq then s!"build/ann/{(ma.lookup "data_type").getD "-"}" else if c18 == "fail" then s!"build/C18/{(ia.lookup "data_type").getD "-"}" else "",
                why := if !annEq then s!"annotations: model {repr ma}, implementation {repr ia}" else if c18 == "fail" then s!"blamed field {repr (ia.lookup "field")} not among {repr blamed}" else "" }
     else
